@@ -157,7 +157,18 @@ def _run_shard_inner(job):
                 continue
             except HarnessError:
                 raise
-            except Exception as exc:  # Flaky, Unsatisfiable, ... -> harness problem, never a violation
+            except Exception as exc:  # Flaky, Unsatisfiable, ...
+                if state["last"] is not None and state["target"] is not None:
+                    # A discrepancy against the oracle WAS observed, but Hypothesis could not reproduce it when it
+                    # replayed the example (FlakyFailure): the outcome depends on state carried between cases in
+                    # this process (e.g. a module-level cache in the code under test).  That is a finding about the
+                    # code, not about the harness: report the last failing case, unshrunk.
+                    case, msg = state["last"]
+                    label = state["target"]
+                    violations.append({"label": label, "msg": msg + " [not reproducible in isolation: depends on earlier cases in the same process]",
+                                       "case": case, "shrunk": False})
+                    suppressed.add(label)
+                    continue
                 raise HarnessError(
                     f"hypothesis failed in {subname} shard {shard}: {type(exc).__name__}: {exc}\n{traceback.format_exc()}"
                 ) from exc
